@@ -83,10 +83,13 @@ int32_t psRsaParseAsnPubKey(psPool_t *pool,
     }
 
     end = p + seqlen;
-    if (pstm_read_asn(pool, &p, (uint16_t) (end - p), &key->N) < 0 ||
-        pstm_read_asn(pool, &p, (uint16_t) (end - p), &key->e) < 0)
+    if (pstm_read_asn(pool, &p, (uint16_t) (end - p), &key->N) < 0)
     {
-
+        goto L_FAIL;
+    }
+    if (pstm_read_asn(pool, &p, (uint16_t) (end - p), &key->e) < 0)
+    {
+        pstm_clear(&key->N);
         goto L_FAIL;
     }
     key->size = pstm_unsigned_bin_size(&key->N);
